@@ -429,6 +429,18 @@ func (u *clientUpdater) updateService(ctx context.Context, service ServiceDefini
 	if err != nil {
 		return fmt.Errorf("failed to wipe on testSeed change (service=%s, testSeed=%s): %w", service.ID, seed, err)
 	}
+	if currentTimestamp != 0 {
+		// If the seed changed, the store was wiped and starts over at timestamp 0. The presentations above were requested
+		// with a timestamp of the previous seed, so entries the new server handed out before that timestamp are missing:
+		// don't process them, the next update fetches everything from the start.
+		newTimestamp, err := u.store.getTimestamp(service.ID)
+		if err != nil {
+			return err
+		}
+		if newTimestamp == 0 {
+			return nil
+		}
+	}
 	for _, presentation := range presentations {
 		if presentation.ID == nil {
 			// can't be stored or found again without an ID; the server should not have accepted it
